@@ -42,16 +42,27 @@ def make_field(desc):
     L1 = L1 * k
     if mode == "timedep":
         a, b = 3.0 / T, 2.0 / T
+        tref = float(desc.get("t0", 0.0))
+
+        def Lfun(t, x):   # phase measured from the start of the history (large absolute times stay well conditioned)
+            return L0 * np.cos(a * (t - tref)) + L1 * np.sin(b * (t - tref))
+
+        return Lfun, (lambda t: np.zeros(3))
+    if mode == "multirate":
+        # two stages of equal strain: unit rate on [t0, tb), rate rho on [tb, t0+T]  (large dynamic range of rates)
+        rho = float(desc.get("rho", 1e-3))
+        tb = float(desc.get("t0", 0.0)) + T * rho / (1 + rho)
 
         def Lfun(t, x):
-            return L0 * np.cos(a * t) + L1 * np.sin(b * t)
+            return L0 if t < tb else rho * L1
 
         return Lfun, (lambda t: np.zeros(3))
     if mode == "posdep":
         w = 2.0 / T
+        tref = float(desc.get("t0", 0.0))
 
         def pos(t):
-            return np.array([np.cos(w * t), np.sin(w * t), 0.3 * w * t])
+            return np.array([np.cos(w * (t - tref)), np.sin(w * (t - tref)), 0.3 * w * (t - tref)])
 
         def Lfun(t, x):
             return L0 * (1 + 0.5 * x[0]) + L1 * (0.7 * x[1] + 0.1 * x[2])
@@ -86,12 +97,25 @@ class History:
         k = float(fd.get("k", 1.0))
         self.strain = float(case["strain"])
         # time span such that the nominal strain (at unit-rate scaling) is `strain`
-        self.T = self.strain / k
+        self.breaks = []
+        if fd.get("mode") == "multirate":
+            rho = float(fd.get("rho", 1e-3))
+            self.T = self.strain / (k * 2 * rho / (1 + rho))
+        else:
+            self.T = self.strain / k
+        self.t0 = float(case.get("t0", 0.0)) / k
         fd["T"] = self.T
+        fd["t0"] = self.t0
+        if fd.get("mode") == "multirate":
+            self.breaks = [self.t0 + self.T * rho / (1 + rho)]
         self.Lfun, self.posfun = make_field(fd)
         self.N = int(case["N"])
-        self.t0 = float(case.get("t0", 0.0)) / k
         self.ts = gen.partition(rng, self.t0, self.t0 + self.T, self.N, equal=case.get("equal", True))
+        # regime delivery: static attribute of the mineral, or through the get_regime(t, x) callback
+        # (optionally switching to a second regime half-way through the history)
+        self.regime_via = case.get("regime_via", "static")
+        self.regime2 = case.get("regime2")
+        self.t_switch = self.t0 + 0.5 * self.T * (1 - 1e-9)
         F0k = case.get("F0", "I")
         if F0k == "I":
             self.F0 = np.eye(3)
@@ -111,17 +135,41 @@ class History:
             else:
                 raise ValueError(F0k)
 
+    def get_regime_fn(self):
+        if self.regime_via != "callback" and self.regime2 is None:
+            return None
+        R = self.pydrex.core.DeformationRegime
+        r1, r2, tsw = R(self.regime), (None if self.regime2 is None else R(int(self.regime2))), self.t_switch
+
+        def get_regime(t, x):
+            if r2 is not None and t > tsw:
+                return r2
+            return r1
+
+        return get_regime
+
+    def regime_at_update(self, i):
+        """Regime in force during update i (0-based) -- the switch lies just before a partition point
+        only for even N with an equal partition; callers that need it use such histories."""
+        if self.regime2 is not None and self.ts[i] >= self.t_switch:
+            return int(self.regime2)
+        return self.regime
+
     def mineral(self, A0=None, f0=None, regime=None, **kw):
+        static = self.regime if regime is None else regime
+        if regime is None and self.get_regime_fn() is not None:
+            # the static attribute deliberately differs from what the callback will report
+            static = 4 if self.regime != 4 else 6
         m = self.pydrex.Mineral(
             phase=self.phase, fabric=self.fabric,
-            regime=self.pydrex.core.DeformationRegime(self.regime if regime is None else regime),
+            regime=self.pydrex.core.DeformationRegime(static),
             n_grains=self.n,
             fractions_init=(self.f0 if f0 is None else f0).copy(),
             orientations_init=(self.A0 if A0 is None else A0).copy(), **kw,
         )
         return m
 
-    def run(self, m, F0=None, Lfun=None, posfun=None, ts=None, params=None, on_update=None):
+    def run(self, m, F0=None, Lfun=None, posfun=None, ts=None, params=None, on_update=None, solver_kw=None):
         """Drive mineral ``m`` through the history. Returns final F. Exceptions propagate."""
         F = (self.F0 if F0 is None else F0).copy()
         Lfun = Lfun or self.Lfun
@@ -130,21 +178,24 @@ class History:
         params = params or self.params
         with warnings.catch_warnings():
             warnings.simplefilter("ignore")
+            gr = self.get_regime_fn()
             for i, (a, b) in enumerate(zip(ts[:-1], ts[1:])):
-                F = m.update_orientations(params, F, Lfun, (a, b, posfun))
+                F = m.update_orientations(params, F, Lfun, (a, b, posfun), get_regime=gr, **(solver_kw or {}))
                 if on_update:
                     on_update(i, a, b, F)
         return F
 
     def strain_upto(self, i):
         """Accumulated strain after update i (0-based), along the driven history."""
-        return refmodels.accumulated_strain(self.Lfun, self.posfun, self.ts[0], self.ts[i + 1],
-                                            m=32 * (i + 1) if i < 8 else 256)
+        pts = [self.ts[0]] + [b for b in self.breaks if self.ts[0] < b < self.ts[i + 1]] + [self.ts[i + 1]]
+        m = max(8, (32 * (i + 1) if i < 8 else 256) // (len(pts) - 1))
+        return sum(refmodels.accumulated_strain(self.Lfun, self.posfun, a, np.nextafter(b, a) if b in self.breaks else b, m=m)
+                   for a, b in zip(pts[:-1], pts[1:]))
 
 
 def random_history_case(rng, **fixed):
     """Descriptor of a random hostile history. ``fixed`` pins any field."""
-    mode = rng.choice(["const", "const", "timedep", "posdep"])
+    mode = rng.choice(["const", "const", "timedep", "posdep", "multirate"], p=[0.3, 0.2, 0.2, 0.15, 0.15])
     case = {
         "seed": int(rng.integers(1 << 31)),
         "combo": int(rng.integers(6)),
@@ -158,7 +209,12 @@ def random_history_case(rng, **fixed):
         "N": int(rng.choice([1, 3, 10, 40], p=[0.3, 0.4, 0.25, 0.05])),
         "equal": bool(rng.random() < 0.5),
         "params": gen.drex_params(rng),
+        # pathlines rarely start at t = 0: offsets up to 1e6 spans (and seconds-scale model times)
+        "t0": float(rng.choice([0.0, 0.0, 0.5, -1.3, 1e4, 1e6])),
+        "regime_via": str(rng.choice(["static", "callback"], p=[0.6, 0.4])),
     }
+    if mode == "multirate":
+        case["L"]["rho"] = float(rng.choice([1e-2, 1e-3, 1e-4]))
     case.update(fixed)
     return case
 
@@ -335,8 +391,17 @@ class PairRun:
             mon.gbs_calls = []
         return F, last
 
-    def compare(self, m1, m2, kw1, kw2, mapA, mapF, tol_of, exact=False):
+    TIGHT = {"rtol": 1e-10, "atol": 1e-12}
+
+    def compare(self, m1, m2, kw1, kw2, mapA, mapF, tol_of, exact=False, fresh=None, _tight=False):
+        """``fresh`` () -> (m1, m2): factory of identically initialised minerals.  When given, a pair that
+        disagrees under the default solver tolerances is re-run once with tight LSODA tolerances: if it then
+        agrees, the disagreement was solver noise amplified by the (unstable) grain-growth dynamics -- an
+        ill-conditioned case, counted, not a violation; a genuine break of the relation persists."""
         ctx, case, lab = self.ctx, self.case, self.label
+        if _tight:
+            kw1 = dict(kw1, solver_kw=self.TIGHT)
+            kw2 = dict(kw2, solver_kw=self.TIGHT)
         try:
             F1, g1 = self._run(m1, **kw1)
             F2, g2 = self._run(m2, **kw2)
@@ -357,6 +422,10 @@ class PairRun:
                     thr = a[2]
                     band = 0.01 * thr + 3e-4
                     inband = (np.abs(a[1][flips] - thr) <= band) & (np.abs(b[1][flips] - thr) <= band)
+                    if not inband.all() and fresh is not None and not _tight:
+                        ctx.count(f"{lab}:rechecked_with_tight_solver_tolerances")
+                        n1, n2 = fresh()
+                        return self.compare(n1, n2, kw1, kw2, mapA, mapF, tol_of, exact=exact, fresh=None, _tight=True)
                     ctx.check(f"{lab}:gbs_mask_agrees_outside_tolerance_band", bool(inband.all()), case,
                               key="gbs_mask_mismatch", update=k, n_flips=int(flips.sum()),
                               worst=float(np.abs(a[1][flips] - thr).max()), thr=float(thr))
@@ -372,6 +441,12 @@ class PairRun:
             ctx.extreme(f"{lab}:dA", eA)
             ctx.extreme(f"{lab}:df", ef)
             ok = eA <= tol and ef <= tol
+            if not ok and fresh is not None and not _tight:
+                ctx.count(f"{lab}:rechecked_with_tight_solver_tolerances")
+                n1, n2 = fresh()
+                return self.compare(n1, n2, kw1, kw2, mapA, mapF, tol_of, exact=exact, fresh=None, _tight=True)
+            if _tight and ok and k == nup:
+                ctx.count(f"{lab}:illconditioned_solver_noise_amplified")
             if exact:
                 ctx.count(f"{lab}:bit_identical" if (eA == 0 and ef == 0) else f"{lab}:not_bit_identical")
             ctx.check(f"{lab}:textures_related", ok, case, update=k, err_A=eA, err_f=ef, tol=tol)
